@@ -3,18 +3,20 @@ import Casm.Proofs.RepExact
 import Casm.Proofs.BudgetMono
 import Casm.Proofs.FrontInv
 import Casm.Proofs.SwitchOutcome
+import Casm.Proofs.BudgetOne
+import Casm.Proofs.FrontUniq
 /-!
 # Casm.Proofs.BudgetPinned — with the budget of `asm`-block loops pinned, `assemble` is budget-monotone
 
 The positive statement beside finding F38: the only way the outer budget reaches the result is
 `eval_asm`'s use of `max_iterations` for its own loop.  With that loop's budget pinned, a program that
-assembles under a budget of at least two assembles under every larger one to the same bits, spans and
+assembles under a budget of at least one pass assembles under every larger one to the same bits, spans and
 symbols.
 -/
 namespace Casm
 
 theorem assemble_budget_monotone_pinned (opts : Opts) (k : Nat) (hk : opts.innerIter = some k) (fs : SrcFiles) (roots : List (List Char))
-    (n m : Nat) (hn : 2 ≤ n) (hnm : n ≤ m) (out : AsmOk) (h : assemble (opts.withMax n) fs roots = .ok out) :
+    (n m : Nat) (hn : 1 ≤ n) (hnm : n ≤ m) (out : AsmOk) (h : assemble (opts.withMax n) fs roots = .ok out) :
     ∃ out', assemble (opts.withMax m) fs roots = .ok out' ∧ out'.core = out.core := by
   unfold assemble at h ⊢
   rw [frontEnd_max] at h ⊢
@@ -27,6 +29,8 @@ theorem assemble_budget_monotone_pinned (opts : Opts) (k : Nat) (hk : opts.inner
     have hso : st.opts = opts := (frontEnd_finv opts fs roots st nodes d0 hf).1
     have hki : st.opts.innerIter = some k := by rw [hso]; exact hk
     have hwf := frontEnd_noClash opts fs roots st nodes d0 hf
+    have hu := frontEnd_uniq opts fs roots st nodes d0 hf
+    have hok := frontEnd_nodesOK opts fs roots st nodes d0 hf
     unfold resolveIteratively at h ⊢
     have hmn : (st.withMax n).opts.maxIter = n := rfl
     have hmm : (st.withMax m).opts.maxIter = m := rfl
@@ -37,9 +41,9 @@ theorem assemble_budget_monotone_pinned (opts : Opts) (k : Nat) (hk : opts.inner
     | ok y =>
       obtain ⟨it, d, rep⟩ := y
       rw [hr] at h
-      obtain ⟨k', rep', hr'⟩ := budget_monotone_model st nodes hwf n m hn hnm d0 it d rep hr
-      have e1 := resolveIterativelyN_rep st nodes n hn hwf d0 it d rep hr
-      have e2 := resolveIterativelyN_rep st nodes m (by omega) hwf d0 k' d rep' hr'
+      obtain ⟨k', rep', hr'⟩ := budget_monotone_any st nodes hwf hu d0 hok n m hn hnm it d rep hr
+      have e1 := resolveIterativelyN_rep_any st nodes n hn hwf hu d0 hok it d rep hr
+      have e2 := resolveIterativelyN_rep_any st nodes m (by omega) hwf hu d0 hok k' d rep' hr'
       rw [e1] at e2
       injection e2 with e2; injection e2 with _ e2; injection e2 with _ e2
       subst e2
